@@ -166,6 +166,7 @@ structure Cfg where
   stdExcMsg    : String           -- text of UnexpectedExceptionFailure(test, e)
   otherExcMsg  : String           -- text of UnexpectedExceptionFailure(test)
   clock        : List Nat         -- environment: successive readings of GetPlatformSpecificTimeInMillis
+  separate     : Bool := false    -- `-p`: every test runs in a forked child (GccPlatformSpecificRunTestInASeperateProcess)
 deriving Repr, DecidableEq, Inhabited
 
 /-! ## TestResult -/
@@ -211,6 +212,8 @@ inductive Ev
   | mark (ph : Phase) (n : Nat) (depth : Int)          -- statement `mark n` executed
   | plug (name : String) (post : Bool) (depth : Int)   -- a plugin's pre/post action ran
   | failure (r : FailRec)                              -- TestOutput::printFailure(r)
+  | sepFailure (r : FailRec)
+      -- `-p`: printFailure of the parent's "Failed in separate process" record for a child that exited non-zero
   | ended (depth : Int) (current : Option String) (failed : Bool)
       -- after runOneTest returned: jmp_buf_index, UtestShell::currentTest_, the shell's hasFailed_
   | summary (r : Result) (time : Nat)                  -- TestOutput::printTestsEnded(r), total time `time`
@@ -593,6 +596,33 @@ def runOneTestInCurrentProcess (cfg : Cfg) (plugins : List Plugin) (t : Test) (s
 def runOneTest (cfg : Cfg) (plugins : List Plugin) (t : Test) (st : TSt) : Except Stop JmpOut :=
   setJmp { st with hasFailed := false, res := st.res.countRun } (runOneTestInCurrentProcess cfg plugins t)
 
+/-! ## `-p`: the test in a forked child -/
+
+def separateProcessMsg : String := "Failed in separate process"
+
+/-- `GccPlatformSpecificRunTestInASeperateProcess` (called through helperDoRunOneTestSeperateProcess):
+    the child runs `runOneTestInCurrentProcess` on its copy of everything and ends with
+    `_exit(initialFailureCount < result->getFailureCount())`; everything it prints is seen, everything
+    it counts is lost.  The parent waits and, for a non-zero exit status, reports ONE failure through
+    `result->addFailure` (the shell's hasFailed_ stays false).  Signals / stopped children are C11's.
+    An exception that leaves the child (rethrow mode) is outside this model. -/
+def separateFn (cfg : Cfg) (plugins : List Plugin) (t : Test) (st : TSt) : Except Stop Frame :=
+  match runOneTestInCurrentProcess cfg plugins t st with
+  | .error f => .error f
+  | .ok child =>
+    if st.res.failureCount < child.st.res.failureCount then
+      .ok ⟨{ st with res := st.res.countFailure },
+           child.evs ++ [.sepFailure (mkRecAtTest cfg t separateProcessMsg)], .normal⟩
+    else .ok ⟨st, child.evs, .normal⟩
+
+/-- `UtestShell::runOneTest` when `isRunInSeperateProcess()` -/
+def runOneTestSeparate (cfg : Cfg) (plugins : List Plugin) (t : Test) (st : TSt) : Except Stop JmpOut :=
+  setJmp { st with hasFailed := false, res := st.res.countRun } (separateFn cfg plugins t)
+
+/-- `test->runOneTest(plugin, result)` in the mode the command line selected -/
+def runOneTestMode (cfg : Cfg) (plugins : List Plugin) (t : Test) (st : TSt) : Except Stop JmpOut :=
+  if cfg.separate then runOneTestSeparate cfg plugins t st else runOneTest cfg plugins t st
+
 /-! ## TestRegistry::runAllTests -/
 
 /-- `TestFilter::match`, strict matching -/
@@ -655,7 +685,7 @@ deriving Repr, DecidableEq, Inhabited
     `currentTestEnded` (read the clock, then print) -/
 def runSelected (cfg : Cfg) (plugins : List Plugin) (t : Test) (s : LSt) : Except Stop LAcc :=
   if willRun cfg t then
-    match runOneTest cfg plugins t ⟨s.res, false, s.depth, s.current⟩ with
+    match runOneTestMode cfg plugins t ⟨s.res, false, s.depth, s.current⟩ with
     | .error f => .error (f.prepend (testStartedToks cfg t ++ [.clock (readClock cfg s.tick)]))
     | .ok j =>
       match j.esc with
